@@ -36,28 +36,7 @@ LEVEL = "proof"
 # generated constants (coq/C01/GenC01.v)
 # --------------------------------------------------------------------------
 
-def regen_gen(plain):
-    """returns (changed, error)"""
-    dst = os.path.join(core.COQ, "C01", "GenC01.v")
-    cache = os.path.join(core.CACHE, "C01-gen-%s.v" % plain["tree_hash"][:24])
-    if os.path.exists(cache):
-        txt = open(cache).read()
-    else:
-        try:
-            exe = B.compile_harness(plain, [os.path.join(HERE, "gen_c01.c")], "gen_c01")
-        except B.BuildError as e:
-            return False, "gen_c01.c does not compile against the working tree: %s" % str(e)[-1500:]
-        r = subprocess.run([exe], stdout=subprocess.PIPE, stderr=subprocess.PIPE, timeout=120)
-        if r.returncode != 0:
-            return False, "gen_c01 failed: %s" % r.stderr.decode()[-500:]
-        txt = r.stdout.decode()
-        os.makedirs(core.CACHE, exist_ok=True)
-        open(cache, "w").write(txt)
-    old = open(dst).read() if os.path.exists(dst) else None
-    if old != txt:
-        open(dst, "w").write(txt)
-        return True, None
-    return False, None
+from genc01 import regen_gen, regen_genc01   # noqa: E402,F401  (stand-alone module: also loaded by vlib.core.prepare_proofs)
 
 
 # --------------------------------------------------------------------------
